@@ -110,8 +110,14 @@ fn compare_hint_recovery(e: &mut Eng, ctx: &Ctx, case: u64, out: &mut Out) -> Re
     copy_dir(&e.dir, &a, None);
     copy_dir(&e.dir, &b, Some(".hint"));
     let res = (|| -> Result<(), Fail> {
-        let sa = Store::open(&a, &e.conf).map_err(|x| Fail { sig: "open-failed".into(), desc: format!("open with hint files failed: {}", x) })?;
-        let sb = Store::open(&b, &e.conf).map_err(|x| Fail { sig: "open-failed".into(), desc: format!("open without hint files failed: {}", x) })?;
+        // an open that fails only with, or only without, the hint files is a difference between the
+        // two recoveries like any other; one that fails both ways is not this comparison's subject
+        let (sa, sb) = match (Store::open(&a, &e.conf), Store::open(&b, &e.conf)) {
+            (Ok(sa), Ok(sb)) => (sa, sb),
+            (Err(x), Ok(_)) => return fail("hint-recovery-differs", format!("the directory opens when its {} hint files are removed, but with them open fails: {}", hint_files, x)),
+            (Ok(_), Err(x)) => return fail("hint-recovery-differs", format!("the directory opens with its {} hint files, but once they are removed open fails: {}", hint_files, x)),
+            (Err(x), Err(_)) => return fail("open-failed", format!("open failed with and without hint files: {}", x)),
+        };
         let mut keys = e.keys.clone();
         keys.push(b"\x01never-written\x02".to_vec());
         for k in &keys {
